@@ -40,7 +40,7 @@ func c10Scenarios(tier string) []*Scenario {
 						cause = "gstop"
 					}
 					opt := Options{Level: "io", Bound: 1, DevOK: onlyFaults}
-					if len(set) <= 1 && nAfter == 1 {
+					if len(set) <= 1 && nAfter == 1 && tier != "lite" {
 						opt = Options{Level: "io", Bound: 2, DevOK: oneFaultAnyOrder}
 					}
 					if thorough {
